@@ -182,6 +182,10 @@ func check(args []string) int {
 	if *prop == "C18" {
 		frameObls = vc.FrameScan(w)
 	}
+	// C12, C19: no error returned by a callee is dropped (one obligation per call site)
+	if *prop == "C12" || *prop == "C19" {
+		frameObls = append(frameObls, vc.ErrPropScan(w)...)
+	}
 	// thorough: every proof is put to a second, independent solver
 	secondAgreed, secondUndecided := 0, 0
 	if *tier == "thorough" {
@@ -254,13 +258,24 @@ func check(args []string) int {
 			failed = append(failed, &replayCase{run: r, res: or, id: len(failed)})
 		}
 	}
+	errpropSamples := 0
 	for _, fo := range frameObls {
 		total++
+		backend, kind, what := "ssa-frame-analysis", "frame", "frame (shared state is not written after construction)"
+		if fo.Kind == "errprop" {
+			backend, kind, what = "ssa-errprop-analysis", "errprop", "errprop (the error returned by a callee is not dropped)"
+		}
 		if fo.OK {
 			discharged++
-			byBackend["ssa-frame-analysis"]++
-			if len(samples) < 6 {
-				samples = append(samples, map[string]interface{}{"obligation": fo.Name, "kind": "frame", "status": "discharged", "backend": "ssa-frame-analysis", "note": fo.Detail})
+			byBackend[backend]++
+			if len(samples) < 6 && (fo.Kind != "errprop" || errpropSamples < 2) {
+				if fo.Kind == "errprop" {
+					errpropSamples++
+				}
+				samples = append(samples, map[string]interface{}{"obligation": fo.Name, "kind": kind, "status": "discharged", "backend": backend, "note": fo.Detail})
+			}
+			if fo.Kind == "errprop" && strings.Contains(fo.Detail, "exempt") {
+				notes["error explicitly discarded in the source (exempt from errprop): "+fo.Name] = true
 			}
 			continue
 		}
@@ -271,8 +286,8 @@ func check(args []string) int {
 		}
 		unproved = append(unproved, fo.Name)
 		p := filepath.Join(replayDir, *prop+"_"+sanitize(fo.Name)+".txt")
-		os.WriteFile(p, []byte(fmt.Sprintf("obligation: %s\nkind: frame (shared state is not written after construction)\nproperty: %s\nfunction: %s\nposition: %s\n\n"+
-			"the function may write to shared state:\n  %s\n\nno solver is involved: the obligation is decided by a conservative flow analysis over go/ssa, "+
+		os.WriteFile(p, []byte(fmt.Sprintf("obligation: %s\nkind: "+what+"\nproperty: %s\nfunction: %s\nposition: %s\n\n"+
+			"the analysis reports:\n  %s\n\nno solver is involved: the obligation is decided by a conservative flow analysis over go/ssa, "+
 			"so there is no model to replay\n", fo.Name, *prop, fo.Func, fo.Pos, strings.ReplaceAll(fo.Detail, "; ", "\n  "))), 0o644)
 		violation(p, " no-failing-input-found")
 	}
